@@ -28,6 +28,9 @@ class World:
         self.api_errors = []         # (api, exception) raised synchronously by an application call
         self.close_seen = set()      # (side, ch) that received the peer's CLOSE
         self.sent_opens = []     # channel ids in the order OPEN was sent (= arrives)
+        self.wbytes = {x: {c: 0 for c in self.chans} for x in 'cs'}
+        self.rxbytes = {x: {c: 0 for c in self.chans} for x in 'cs'}
+        self.rough = set()       # (side, ch) aborted; 'conn' if the connection was closed / cut by anyone
         w = self
 
         def mk_session(side, ch, base):
@@ -45,6 +48,7 @@ class World:
 
                 def data_received(self, data, datatype):
                     w.log[side][ch].append('data_received')
+                    w.rxbytes[side][ch] += len(data)
 
                 def eof_received(self):
                     w.log[side][ch].append('eof_received')
@@ -99,6 +103,8 @@ class World:
         elif k == 'weof':
             self._api(self.chan[lbl[1]][lbl[2]].write_eof)
         elif k == 'wdata':
+            if self.chan[lbl[1]][lbl[2]]._send_state == 'open':
+                self.wbytes[lbl[1]][lbl[2]] += 1
             self._api(self.chan[lbl[1]][lbl[2]].write, b'd')
         elif k == 'pause':
             self._api(self.chan[lbl[1]][lbl[2]].pause_reading)
@@ -108,13 +114,17 @@ class World:
             self.closed_by_app.add((lbl[1], lbl[2]))
             self._api(self.chan[lbl[1]][lbl[2]].close)
         elif k == 'abort':
+            self.rough.add((lbl[1], lbl[2]))
             self.closed_by_app.add((lbl[1], lbl[2]))
             self._api(self.chan[lbl[1]][lbl[2]].abort)
         elif k == 'connclose':
+            self.rough.add('conn')
             self._api(conn[lbl[1]].close)
         elif k == 'connabort':
+            self.rough.add('conn')
             self._api(conn[lbl[1]].abort)
         elif k == 'cut':
+            self.rough.add('conn')
             def cut():
                 p.ct.cut()
                 p.st.cut()
@@ -217,6 +227,23 @@ class World:
                     bad.append(f'MadeImpliesLost: session {x}{c} was told '
                                f'connection_made but never connection_lost '
                                f'after its connection ended: {lg}')
+            # a channel closed gracefully by the peer: by the time the session
+            # is told connection_lost it has been given everything the peer
+            # wrote (data buffered while reading was paused included)
+            y = 's' if x == 'c' else 'c'
+            for c in self.chans:
+                if 'conn' in self.rough or (x, c) in self.closed_by_app or \
+                        (y, c) in self.rough or p.lost:
+                    continue
+                # (a session that was never started - the open or the
+                # session request failed - has no application to deliver to)
+                if 'connection_lost' in self.log[x][c] and \
+                        'session_started' in self.log[x][c] and \
+                        self.rxbytes[x][c] != self.wbytes[y][c]:
+                    bad.append(f'DataBeforeClose: session {x}{c} was told '
+                               f'connection_lost after {self.rxbytes[x][c]} of '
+                               f'the {self.wbytes[y][c]} bytes its peer wrote '
+                               f'before closing the channel: {self.log[x][c]}')
             if p.lost_n[x] > 1:
                 bad.append(f'CloseOnceAndLast: owner {x} connection_lost '
                            f'called {p.lost_n[x]} times')
@@ -372,3 +399,44 @@ def replay(steps, chans, reject=(), final=None):
     finally:
         w.stop()
     return res
+
+
+def paused_close_case(x, ndata, eof_first, pause_when):
+    """Regression schedule: the receiver pauses reading, the sender x writes
+    ndata chunks, (signals EOF,) and closes the channel; everything is
+    delivered while the receiver is still paused; then it resumes.
+    pause_when: 'before' (paused before any data arrives) or 'between'
+    (after the first chunk).  Returns the l1 findings."""
+    y = 's' if x == 'c' else 'c'
+    w = World([1]).start()
+    try:
+        p = w.pair
+        w.do(['open', 1])
+        for _ in range(6):              # OPEN, CONF, REQ, SUCC
+            p.deliver_all('c')
+            p.deliver_all('s')
+        if pause_when == 'before':
+            w.do(['pause', y, 1])
+        for i in range(ndata):
+            w.do(['wdata', x, 1])
+            if i == 0 and pause_when == 'between':
+                p.deliver_all(x)
+                w.do(['pause', y, 1])
+        if eof_first:
+            w.do(['weof', x, 1])
+        w.do(['close', x, 1])
+        p.deliver_all(x)                # DATA.., (EOF,) CLOSE arrive paused
+        p.loop.run_until_idle()
+        w.do(['resume', y, 1])
+        for _ in range(4):
+            p.deliver_all('c')
+            p.deliver_all('s')
+        p.loop.run_until_idle()
+        out = w.l1(final=False)
+        if 'connection_lost' not in w.log[y][1]:
+            out.append(f'CloseOnceAndLast: session {y}1 never got '
+                       f'connection_lost after the peer closed the channel '
+                       f'and reading was resumed: {w.log[y][1]}')
+        return out, w.log[y][1]
+    finally:
+        w.stop()
